@@ -4,6 +4,8 @@
  *   decode first=<lo>-<hi> maxlen=<1..3> offsets=0,1,5     every string of length 1..maxlen whose first byte is in
  *                                                          [lo,hi], at each offset, total = offset+len (flush)
  *   empty offsets=0,1,5                                     zero bytes available
+ *   beyond                                                  the cursor is already past the end of the buffer (total in
+ *                                                          {0,1,5}, cursor = total + {1,2,9,64,4000}): must fail, no read
  *   long first=<lo>-<hi> len=<8..11> prefix=<0|1|2> tail=<2|3> offsets=0[,5]
  *                           strings of that length: prefix pattern, then every value in the last `tail` positions,
  *                           the first enumerated position restricted to [lo,hi]
@@ -86,6 +88,31 @@ static void mismatch(stats *st, const char *fn, const char *pred, const unsigned
     fprintf(st->out, "M %d fn=%s pred=%s bytes=", st->idx, fn, pred);
     put_hex(st->out, s, n);
     fprintf(st->out, " off=%d exp=%s got=%s\n", off, exp, got);
+}
+
+/* the caller's cursor is d bytes past the end of a buffer of `total` bytes that ends at the guard page: nothing may be read */
+static void check_beyond(stats *st, size_t total, size_t d) {
+    unsigned char *base = page + pagesz - total;
+    memset(base, 0x81, total);
+    unsigned char none[1] = {0};
+    for(int fn = 0; fn < 2; fn++) {
+        size_t length = total + d, v = 0x5a5a5a5a;
+        int iv = 0x5a5a, r = 0;
+        st->calls++;
+        st->overflow++;
+        armed = 1;
+        if(sigsetjmp(jb, 1) == 0) {
+            if(fn == 0) r = compint_to_size(zck, &v, (char *)base + length, &length, total);
+            else r = compint_to_int(zck, &iv, (char *)base + length, &length, total);
+            armed = 0;
+        } else {
+            reset_ctx();
+            mismatch(st, fn ? "int" : "size", "read-past-end-of-buffer", none, 0, (int)(total + d), "fail", "SIGSEGV-on-guard-page");
+            continue;
+        }
+        reset_ctx();
+        if(r) mismatch(st, fn ? "int" : "size", "accepted:cursor-beyond-end-of-buffer", none, 0, (int)(total + d), "fail", "success");
+    }
 }
 
 /* decode string s (n bytes) placed so that it ends exactly at the guard page, preceded by `off` filler bytes */
@@ -237,6 +264,9 @@ static void run_one(int idx, FILE *out, void *vctx) {
                         }
                 }
         }
+    } else if(k->kind == 'b') {
+        static const size_t totals[] = {0, 1, 5}, ds[] = {1, 2, 9, 64, 4000};
+        for(int a = 0; a < 3; a++) for(int b = 0; b < 5; b++) check_beyond(&st, totals[a], ds[b]);
     } else if(k->kind == 'e') {
         for(int o = 0; o < k->noffs; o++) check_decode(&st, s, 0, k->offs[o]);
     } else if(k->kind == 'l') {
@@ -322,6 +352,7 @@ int cmd_compint(FILE *job, FILE *out) {
         k.rhi = strtoull(kv(t, n, "hi", "0"), NULL, 0);
         if(!strcmp(t[0], "decode")) k.kind = 'd';
         else if(!strcmp(t[0], "empty")) k.kind = 'e';
+        else if(!strcmp(t[0], "beyond")) k.kind = 'b';
         else if(!strcmp(t[0], "long")) k.kind = 'l';
         else if(!strcmp(t[0], "round")) k.kind = 'r';
         else if(!strcmp(t[0], "roundpow")) k.kind = 'p';
